@@ -385,6 +385,11 @@ int main(int argc, char **argv) {
             while (d && (e = readdir(d))) { if (!strcmp(e->d_name, ".") || !strcmp(e->d_name, "..")) continue; char fp[8000]; snprintf(fp, sizeof fp, "%s/%s", p, e->d_name); size_t n; unsigned char *b = slurp(fp, &n);
                 out("%s{", first ? "" : ","); out_bytes("name", (unsigned char *)e->d_name, strlen(e->d_name)); out(","); out_bytes("content", b ? b : (unsigned char *)"", n); out("}"); free(b); first = 0; if (tok[2] && !strcmp(tok[2], "rm")) unlink(fp); }
             if (d) closedir(d); out("]}\n"); }
+        else if (!strcmp(tok[0], "defformat") || !strcmp(tok[0], "defchain") || !strcmp(tok[0], "defoutput") || !strcmp(tok[0], "defoutarg") || !strcmp(tok[0], "defident")) {
+            /* compiled-in settings of the "compiled_in" variant (variables of seam.c) */
+            extern char verif_def_format[65536], verif_def_chain[8192], verif_def_output[256], verif_def_output_arg[8192], verif_def_ident[8192];
+            char *val = mkstr(nt > 1 ? tok[1] : "h"); char *dst = !strcmp(tok[0], "defformat") ? verif_def_format : !strcmp(tok[0], "defchain") ? verif_def_chain : !strcmp(tok[0], "defoutput") ? verif_def_output : !strcmp(tok[0], "defoutarg") ? verif_def_output_arg : verif_def_ident;
+            size_t cap = !strcmp(tok[0], "defformat") ? 65536 : !strcmp(tok[0], "defoutput") ? 256 : 8192; strncpy(dst, val, cap - 1); dst[cap - 1] = 0; free(val); }
         else if (!strcmp(tok[0], "wantdigest")) want_digest = atoi(tok[1]);
         else if (!strcmp(tok[0], "call")) do_call(tok, nt);
         else if (!strcmp(tok[0], "syms")) load_syms(tok[1]);
